@@ -18,7 +18,7 @@ func init() {
 		Clause: "C10/C18/C04 'bounds, hulls, areas and parities account for the whole polygon': a function that accumulates over all loops of a polygon (sum, union, exclusive-or, AddLoop) " +
 			"leaves its loop over the polygon's loops only when the loops are exhausted - no break and no return inside. The accumulating functions are listed with the reason; " +
 			"search loops (any/first) are not in the list.",
-		Min: 11,
+		Min: 13,
 		Run: runAllLoops,
 	})
 }
@@ -26,6 +26,8 @@ func init() {
 var accumulatingOverLoops = []struct{ recv, name, what, elem string }{
 	{"CrossingEdgeQuery", "getCellsForEdge", "collects the index cells met by every face segment of the query edge", "FaceSegment"},
 	{"ConvexHullQuery", "AddPolygon", "adds every depth-0 loop to the hull input", ""},
+	{"Polygon", "decode", "allocates and decodes every loop (a nil entry is dereferenced by the initialisation that follows)", ""},
+	{"Polygon", "decodeCompressed", "allocates and decodes every loop (a nil entry is dereferenced by the initialisation that follows)", ""},
 	{"Polygon", "Area", "signed sum of the loop areas", ""},
 	{"Polygon", "Centroid", "signed sum of the loop centroids", ""},
 	{"Polygon", "ReferencePoint", "exclusive-or of the loops' origin bits", ""},
@@ -87,6 +89,9 @@ func runAllLoops(c *core.Ctx) []core.Obligation {
 					continue
 				}
 				for _, s := range b.Succs {
+					if !body[s] && a.recv == "Polygon" && (a.name == "decode" || a.name == "decodeCompressed") && errorExitIsSafe(fn, s) {
+						continue // leaves the loop on a decoding error and returns before the loops are used
+					}
 					if !body[s] {
 						bad = fmt.Sprintf("the loop over all elements is left from inside its body (block %d, %s): the elements after that point are not accounted for (%s)", b.Index, b.Comment, a.what)
 					}
@@ -106,4 +111,59 @@ func runAllLoops(c *core.Ctx) []core.Obligation {
 		}
 	}
 	return obs
+}
+
+// errorExitIsSafe: from block start (the target of an early exit of a decoding loop) no call that uses the decoded
+// loops (init*, a shape index Add) is reachable without first passing a test of the decoder's sticky error.
+func errorExitIsSafe(fn *ssa.Function, start *ssa.BasicBlock) bool {
+	errTests := map[*ssa.BasicBlock]bool{}
+	for _, b := range fn.Blocks {
+		iff, ok := b.Instrs[len(b.Instrs)-1].(*ssa.If)
+		if !ok {
+			continue
+		}
+		dep := false
+		var walk func(v ssa.Value, d int)
+		walk = func(v ssa.Value, d int) {
+			if d > 4 || v == nil {
+				return
+			}
+			if fr, ok := core.AsFieldLoad(v); ok && fr.Name == "err" {
+				dep = true
+			}
+			switch x := v.(type) {
+			case *ssa.BinOp:
+				walk(x.X, d+1)
+				walk(x.Y, d+1)
+			case *ssa.UnOp:
+				walk(x.X, d+1)
+			}
+		}
+		walk(iff.Cond, 0)
+		if dep {
+			errTests[b] = true
+		}
+	}
+	uses := func(b *ssa.BasicBlock) bool {
+		for _, in := range b.Instrs {
+			if call, ok := in.(*ssa.Call); ok {
+				if f := core.StaticCallee(call); f != nil && (len(f.Name()) > 4 && f.Name()[:4] == "init" || f.Name() == "Add") {
+					return true
+				}
+			}
+		}
+		return false
+	}
+	if errTests[start] {
+		return true
+	}
+	if uses(start) {
+		return false
+	}
+	for _, b := range fn.Blocks {
+		if b != start && uses(b) && core.ReachableAvoiding(start, b, nil, errTests) {
+			return false
+		}
+	}
+	return true
 }
